@@ -48,6 +48,8 @@ CHECKS = {
    text="Generated C API sessions from a template grammar with a model function per template; multi-row statements fail at a PRNG-chosen row (type error, refused delete); statements that returned an error must have no effect immediately, after commit of the surrounding transaction and after reopen. Attribution by the twin history without the failed statements.", ref="§3 C13"),
  "C14": dict(cat="exploration", tech="deterministic simulation: invariant monitor in every configuration + statement-level create/delete histories through the C API",
    text="(1) every dump in every configuration checks that each relationship returned in either direction connects two existing nodes and that the outgoing and incoming views agree; (2) C API sessions with create-then-(DETACH )DELETE in one statement sequence, one transaction and after commit: a delete of a connected node must fail, traversals from both endpoints must agree.", ref="§3 C14"),
+ "C15": dict(cat="exploration", tech="deterministic simulation: twin-database histories (with / without create_index events) on the simulated substrate, equality lookups after every lifecycle event",
+   text="One generated history runs on two databases, one with the index events; after every commit, abandoned transaction, compaction and reopen, `MATCH (n:L) WHERE n.p = v` and `MATCH (n:L {p: v})` for every indexed pair and every value of an adversarial universe must return identical ids on both.", ref="§3 C15"),
  "C17": dict(cat="fault_enumeration", tech="deterministic simulation with fault injection: stored-byte faults on the log tail (every truncation offset, zero/random/length-field/oversize tails, unfinished transaction, bit flips) followed by write + reopen rounds",
    text="Every truncation offset inside the last transaction (and every stride-th of the rest of the tail region) plus appended garbage tails and bit flips; each mutated log is opened, dumped against the state after the last completely written transaction, written to again and reopened twice.", ref="§3 C17"),
  "C24": dict(cat="exploration", tech="deterministic simulation: explicit-transaction histories through the C API, transaction-local reference model, attribution by splitting transactions into auto-commit statements",
